@@ -32,13 +32,66 @@ type concurrentTxn struct {
 func NewConcurrentTxnFrom(ctx context.Context, rootstore corekv.TxnStore, id uint64, readonly bool) *BasicTxn {
 	rootTxn := rootstore.NewTxn(readonly)
 	rootConcurentTxn := &concurrentTxn{Txn: rootTxn}
-	multistore := NewMultistore(rootTxn)
+	multistore := NewMultistore(rootConcurentTxn)
 
 	return &BasicTxn{
 		Multistore: multistore,
 		txn:        rootConcurentTxn,
 		id:         id,
 	}
+}
+
+// Iterator returns an iterator whose operations are guarded by the transaction's mutex.
+func (t *concurrentTxn) Iterator(ctx context.Context, opts corekv.IterOptions) (corekv.Iterator, error) {
+	t.mu.Lock()
+	defer t.mu.Unlock()
+	iter, err := t.Txn.Iterator(ctx, opts)
+	if err != nil {
+		return nil, err
+	}
+	return &concurrentIterator{Iterator: iter, mu: &t.mu}, nil
+}
+
+// concurrentIterator guards an iterator of a [concurrentTxn] with the transaction's mutex.
+type concurrentIterator struct {
+	corekv.Iterator
+	mu *sync.Mutex
+}
+
+func (i *concurrentIterator) Next() (bool, error) {
+	i.mu.Lock()
+	defer i.mu.Unlock()
+	return i.Iterator.Next()
+}
+
+func (i *concurrentIterator) Key() []byte {
+	i.mu.Lock()
+	defer i.mu.Unlock()
+	return i.Iterator.Key()
+}
+
+func (i *concurrentIterator) Value() ([]byte, error) {
+	i.mu.Lock()
+	defer i.mu.Unlock()
+	return i.Iterator.Value()
+}
+
+func (i *concurrentIterator) Seek(key []byte) (bool, error) {
+	i.mu.Lock()
+	defer i.mu.Unlock()
+	return i.Iterator.Seek(key)
+}
+
+func (i *concurrentIterator) Reset() {
+	i.mu.Lock()
+	defer i.mu.Unlock()
+	i.Iterator.Reset()
+}
+
+func (i *concurrentIterator) Close() error {
+	i.mu.Lock()
+	defer i.mu.Unlock()
+	return i.Iterator.Close()
 }
 
 func (t *concurrentTxn) Delete(ctx context.Context, key []byte) error {
